@@ -77,8 +77,12 @@ def family(thorough):
     return out
 
 
+OTHER_S, OTHER_R = "omega_word", "omega_done"
+
+
 def full_tree(sc):
-    t = dict(sc["tree"])
+    # every file of the scenario also carries a second, unrelated term, so that a DIFFERENT rename touches the same files
+    t = {k: (("f", v[1] + b"omega_word tail\n", v[2]) if v[0] == "f" else v) for k, v in sc["tree"].items()}
     t.update(EXTRA)
     if sc["setup"] == "old":
         t.update(OLD_EXTRA)
@@ -336,9 +340,72 @@ def apply_perturbation(d, p):
         raise ValueError(kind)
 
 
-def followups(d):
-    """C11: the next commands must not be blocked by leftover state"""
+_ALLOWED = re.compile(r"Content mismatch|destination already exists|History entry with ID|No plan file found|"
+                      r"already been reverted|already been redone|has not been reverted|changed since it was|is already a revert|"
+                      r"Cannot undo|Cannot redo|Plan with ID .* not found|Plan file not found")
+_LEFTOVER = re.compile(r"File exists|lock|parse|temp file", re.I)
+
+
+def blocked_by_leftover(rc, stderr):
+    """a follow-up command may fail because the plan / history state it needs is stale — never because of a leftover file"""
+    if rc == 0:
+        return False
+    if _LEFTOVER.search(stderr):
+        return True
+    return not _ALLOWED.search(stderr)
+
+
+class _Preserved:
+    """run something on the directory `d` and put `d` back exactly as it was (same absolute path: plan.json holds absolute paths)"""
+
+    def __init__(self, d):
+        self.d = d
+
+    def __enter__(self):
+        self.side = tempfile.mkdtemp(prefix="renamify-verif-keep.")
+        self.copy = os.path.join(self.side, "state")
+        shutil.copytree(self.d, self.copy, symlinks=True)
+        return self
+
+    def __exit__(self, *exc):
+        for name in os.listdir(self.d):
+            p = os.path.join(self.d, name)
+            if os.path.isdir(p) and not os.path.islink(p):
+                for dp, dn, fn in os.walk(p):
+                    try:
+                        os.chmod(dp, 0o755)
+                    except OSError:
+                        pass
+                shutil.rmtree(p, ignore_errors=True)
+            else:
+                os.unlink(p)
+        shutil.copytree(self.copy, self.d, symlinks=True, dirs_exist_ok=True)
+        shutil.rmtree(self.side, ignore_errors=True)
+        return False
+
+
+def followups(d, same_args=None):
+    """C11: the next commands must not be blocked by leftover state.  Each group runs on the crash state itself
+    (the directory is put back in between): (a) the SAME command again, (b) a different rename that touches the same
+    files, (c) status / history, then plan --dry-run, plan and a rename of an unrelated file."""
     res = {}
+    if same_args is not None:
+        with _Preserved(d):
+            rc, out, err = common.cli(same_args, d)
+            e = err.decode("utf-8", "replace")
+            res["same"] = {"cmd": "renamify " + " ".join(same_args), "rc": rc, "stderr": e[-300:],
+                           "blocked": blocked_by_leftover(rc, e)}
+        with _Preserved(d):
+            args = ["rename", OTHER_S, OTHER_R, "-y"] + FLAGS
+            rc, out, err = common.cli(args, d)
+            e = err.decode("utf-8", "replace")
+            res["other"] = {"cmd": "renamify " + " ".join(args), "rc": rc, "stderr": e[-300:],
+                            "blocked": blocked_by_leftover(rc, e)}
+    for name in ("status", "history"):
+        rc, out, err = common.cli([name] + FLAGS, d)
+        res[name] = rc
+        if rc != 0:
+            res[name + "_err"] = err.decode("utf-8", "replace")[-200:]
     rc, out, err = common.cli(["plan", FOLLOW_S, FOLLOW_R, "--dry-run", "--quiet"] + FLAGS, d)
     res["plan_dry"] = rc
     rc, out, err = common.cli(["plan", FOLLOW_S, FOLLOW_R, "--quiet"] + FLAGS, d)
@@ -382,7 +449,7 @@ def run_point(job):
                "pre": pre, "post": post, "old_id": info["old_id"], "id": info["id"], "plan": plan,
                "raw_events": len([e for e in r.events if e.seq is not None])}
         if job.get("follow"):
-            obs["follow"] = followups(d)
+            obs["follow"] = followups(d, args)
         return obs
     finally:
         for dp, dn, fn in os.walk(d):
@@ -440,11 +507,11 @@ def model_request(sc, plan, pre_tree, inj, order=None, tree_override=None):
 
 def parse_model(line):
     parts = line.split("|")
-    if len(parts) != 7:
+    if len(parts) != 8:
         return None
     out = {"outcome": parts[0], "ops": [x for x in parts[1].split(";") if x],
            "tree": gen.parse_wire_tree(parts[2]), "hist": parts[3][2:], "lock": parts[4][2:], "stored": parts[5][2:],
-           "lock_tmp": parts[6][2:] == "1"}
+           "lock_tmp": parts[6][2:] == "1", "leftover_blocks": parts[7][2:] == "1"}
     return out
 
 
@@ -491,6 +558,7 @@ def undo_order(obs, plan):
     """the order in which the real undo patched the edited files (prefix seen in the trace, rest sorted)"""
     files = sorted({m["file"] for m in plan["matches"]})
     by_tmp = {tmp_of(f): f for f in files}
+    by_tmp.update({tmp_of(f).replace(".PID.renamify.tmp", ".renamify.tmp"): f for f in files})   # fixed temp names
     seen = []
     for g in obs["groups"]:
         f = g["path"] if g["path"] in files else by_tmp.get(g["path"])
